@@ -24,6 +24,9 @@ pub enum HOp {
     ResetSame,
     /// as ResetSame, but the builder asks for the other line ending
     ResetOtherEnding,
+    /// write one line of this total length whose rendering takes this many (virtual) seconds:
+    /// the clock advances after the record's timestamp was taken and before the record is written
+    WSlow(usize, i64),
 }
 
 pub struct Live {
@@ -96,6 +99,16 @@ impl<'a> Hist<'a> {
                 line.extend(e.as_bytes());
                 self.accepted.push(line);
                 lg::log_info(&*self.live.as_ref().unwrap().logger, &msg);
+            }
+            HOp::WSlow(len, secs) => {
+                let e = self.cfg.ending();
+                let len = len.max(e.len());
+                let msg = lg::payload(self.tag, self.seq, len - e.len());
+                self.seq += 1;
+                let mut line = msg.clone().into_bytes();
+                line.extend(e.as_bytes());
+                self.accepted.push(line);
+                lg::log_info_slow(&*self.live.as_ref().unwrap().logger, &self.env.clock, secs, &msg);
             }
             HOp::R => {
                 self.live
